@@ -35,3 +35,156 @@ pub fn begin(pass: &'static str) {
 pub fn take() -> Vec<(&'static str, usize)> {
     SWEEPS.with(|s| std::mem::take(&mut *s.borrow_mut()))
 }
+
+// ---------------------------------------------------------------------------
+// Step traces of the dataflow passes (one event per critical section of the
+// `while changed { for node in cfg { .. } }` loops), as JSON lines. Nothing is
+// recorded unless the harness switches tracing on for the current thread.
+
+use crate::cfg::{Cfg, CfgNode};
+use crate::parser::HasIdentity;
+
+thread_local! {
+    static TRACE: RefCell<Option<Vec<String>>> = const { RefCell::new(None) };
+}
+
+/// Start recording step events on this thread.
+pub fn trace_on() {
+    TRACE.with(|t| *t.borrow_mut() = Some(Vec::new()));
+}
+
+/// Stop recording and return the recorded JSON lines.
+#[must_use]
+pub fn trace_take() -> Vec<String> {
+    TRACE.with(|t| t.borrow_mut().take().unwrap_or_default())
+}
+
+fn tracing() -> bool {
+    TRACE.with(|t| t.borrow().is_some())
+}
+
+fn emit(line: String) {
+    TRACE.with(|t| {
+        if let Some(v) = t.borrow_mut().as_mut() {
+            v.push(line);
+        }
+    });
+}
+
+fn quote(s: &str) -> String {
+    let mut out = String::with_capacity(s.len() + 2);
+    out.push('"');
+    for c in s.chars() {
+        match c {
+            '"' => out.push_str("\\\""),
+            '\\' => out.push_str("\\\\"),
+            c if (c as u32) < 0x20 => out.push_str(&format!("\\u{:04x}", c as u32)),
+            c => out.push(c),
+        }
+    }
+    out.push('"');
+    out
+}
+
+fn list(mut items: Vec<String>) -> String {
+    items.sort();
+    format!(
+        "[{}]",
+        items.iter().map(|x| quote(x)).collect::<Vec<_>>().join(",")
+    )
+}
+
+fn ident(node: &CfgNode) -> String {
+    node.node().id().to_string()
+}
+
+fn neighbours(nodes: &std::collections::HashSet<std::rc::Rc<CfgNode>>) -> String {
+    list(nodes.iter().map(|x| ident(x)).collect())
+}
+
+/// The value facts attached to a node, as "key=value" strings.
+fn value_facts(node: &CfgNode, out: bool) -> String {
+    let (regs, mem) = if out {
+        (node.reg_values_out(), node.memory_values_out())
+    } else {
+        (node.reg_values_in(), node.memory_values_in())
+    };
+    let mut items: Vec<String> = regs.iter().map(|(k, v)| format!("{k:?}={v:?}")).collect();
+    items.extend(mem.iter().map(|(k, v)| format!("[{k:?}]={v:?}")));
+    list(items)
+}
+
+fn regs(set: crate::cfg::RegisterSet) -> String {
+    list(set.into_iter().map(|r| format!("{r:?}")).collect())
+}
+
+fn facts_of(pass: &str, node: &CfgNode) -> String {
+    if pass == "available" {
+        format!(
+            "\"in\":{},\"out\":{}",
+            value_facts(node, false),
+            value_facts(node, true)
+        )
+    } else {
+        format!(
+            "\"in\":{},\"out\":{},\"udef\":{}",
+            regs(node.live_in()),
+            regs(node.live_out()),
+            regs(node.u_def())
+        )
+    }
+}
+
+/// A run of a pass starts: the graph and the facts it starts from.
+pub fn pass_begin(pass: &'static str, cfg: &Cfg) {
+    if !tracing() {
+        return;
+    }
+    let nodes: Vec<String> = cfg
+        .iter()
+        .map(|n| {
+            format!(
+                "{{\"id\":{},\"prevs\":{},\"nexts\":{},{}}}",
+                quote(&ident(&n)),
+                neighbours(&n.prevs()),
+                neighbours(&n.nexts()),
+                facts_of(pass, &n)
+            )
+        })
+        .collect();
+    emit(format!(
+        "{{\"ev\":\"begin\",\"pass\":{},\"nodes\":[{}]}}",
+        quote(pass),
+        nodes.join(",")
+    ));
+}
+
+/// The loop body ran for `node` (`waited`: it was skipped because none of its
+/// predecessors has been visited); `changed` is the loop's flag afterwards.
+pub fn visit(pass: &'static str, node: &CfgNode, waited: bool, changed: bool) {
+    if !tracing() {
+        return;
+    }
+    emit(format!(
+        "{{\"ev\":\"visit\",\"pass\":{},\"id\":{},\"waited\":{},\"changed\":{},{}}}",
+        quote(pass),
+        quote(&ident(node)),
+        waited,
+        changed,
+        facts_of(pass, node)
+    ));
+}
+
+/// One iteration of `while changed` ended; `promoted` is the waiting node that
+/// was made a root, if any; `again` tells whether the loop goes on.
+pub fn sweep_end(pass: &'static str, promoted: Option<&CfgNode>, again: bool) {
+    if !tracing() {
+        return;
+    }
+    emit(format!(
+        "{{\"ev\":\"sweep_end\",\"pass\":{},\"promoted\":{},\"again\":{}}}",
+        quote(pass),
+        promoted.map_or_else(|| "\"\"".to_string(), |n| quote(&ident(n))),
+        again
+    ));
+}
